@@ -17,14 +17,68 @@ func groundSubterms(ts []*Term) []*Term {
 	seen := map[*Term]bool{}
 	seenStr := map[string]bool{}
 	var out []*Term
+	bound := map[*Term]bool{}
+	openMemo := map[*Term]bool{}
+	var isOpen func(t *Term) bool
+	isOpen = func(t *Term) bool {
+		if t == nil {
+			return false
+		}
+		if bound[t] {
+			return true
+		}
+		if v, ok := openMemo[t]; ok {
+			return v
+		}
+		r := false
+		if t.Q != nil {
+			r = isOpen(t.Q.Body)
+		}
+		for _, a := range t.Args {
+			if r {
+				break
+			}
+			r = isOpen(a)
+		}
+		openMemo[t] = r
+		return r
+	}
 	var visit func(t *Term, underQ bool)
+	seenOpen := map[*Term]bool{}
+	var visitOpen func(t *Term)
+	visitOpen = func(t *Term) {
+		if t == nil || seenOpen[t] {
+			return
+		}
+		if t.Q != nil {
+			for _, v := range t.Q.Vars {
+				bound[v] = true
+			}
+			openMemo = map[*Term]bool{}
+			visitOpen(t.Q.Body)
+			return
+		}
+		if !isOpen(t) {
+			visit(t, true)
+			return
+		}
+		seenOpen[t] = true
+		for _, a := range t.Args {
+			visitOpen(a)
+		}
+	}
 	visit = func(t *Term, underQ bool) {
 		if t == nil || seen[t] {
 			return
 		}
 		seen[t] = true
 		if t.Q != nil {
-			return // terms under binders may contain bound variables
+			// under a binder only the closed subterms are ground terms of the query
+			for _, v := range t.Q.Vars {
+				bound[v] = true
+			}
+			visitOpen(t.Q.Body)
+			return
 		}
 		out = append(out, t)
 		for _, a := range t.Args {
